@@ -23,7 +23,7 @@ ASSUMPTIONS = [
 ]
 NAMES = ["iss", "sub", "aud", "exp", "nbf", "iat", "jti", "custom"]
 NOWS = [0, 1_000_000_000]
-LEEWAYS = [0, 1, 60, 300]
+LEEWAYS = [0, 1, 60, 300, -30, -0.5, 0.5]      # a negative leeway narrows the window; the rule is the same
 
 
 def err_name(name):
@@ -52,7 +52,9 @@ def values_for(name, now, leeway):
     lo, hi = now - leeway, now + leeway
     # incl. what an issuer that counts milliseconds would send, and the magnitudes around it
     times = [lo - 1, lo - 0.5, lo, lo + 0.5, lo + 1, now, hi - 1, hi - 0.5, hi, hi + 0.5, hi + 1, -1, 2 ** 40, float(hi + 1), float(lo - 1), 1e100,
-             now * 1000, (now + 5) * 1000, 10 ** 11 - 1, 10 ** 11, 10 ** 14]
+             now * 1000, (now + 5) * 1000, 10 ** 11 - 1, 10 ** 11, 10 ** 14,
+             # JSON knows no largest integer, and Python reads 1e999 as infinity: numbers all the same
+             2 ** 1023, 2 ** 1024, 10 ** 400, -(10 ** 400), float("inf"), float("-inf")]
     if name in ("exp", "nbf", "iat"):
         return times + vals
     return vals + [now, hi + 1]
@@ -153,7 +155,7 @@ def evaluate(claims, options, now, leeway, default_now):
 def h_single(ctx):
     name = ctx.choose("claim", NAMES)
     now = ctx.choose("now", NOWS)
-    leeway = ctx.choose("leeway", LEEWAYS if config.thorough() else [0, 60])
+    leeway = ctx.choose("leeway", LEEWAYS if config.thorough() else [0, 60, -30])
     default_now = ctx.choose("default_now", [False, True])
     vals = values_for(name, now, leeway)
     v = ctx.choose("value", vals)
